@@ -1244,6 +1244,16 @@ type containerID struct {
 }
 
 func containsItself(rv reflect.Value, onPath map[containerID]bool) bool {
+	// a value that formats itself (String, Error, Format) is not traversed by fmt, so it is not
+	// traversed here either: walking the unexported fields of a context by reflection read its
+	// children map without the lock that guards it ('' + ctx in several goroutines sharing one
+	// cancellable context ended in "fatal error: concurrent map iteration and map write")
+	if rv.IsValid() && rv.CanInterface() && rv.Kind() != reflect.Interface {
+		switch rv.Interface().(type) {
+		case fmt.Stringer, error, fmt.Formatter:
+			return false
+		}
+	}
 	switch rv.Kind() {
 	case reflect.Interface:
 		return !rv.IsNil() && containsItself(rv.Elem(), onPath)
